@@ -32,6 +32,9 @@ def gen_script(rng, stage=None, maxlen=6):
         outs = [0]
     else:
         cfg = "stage=%s cap=%d fn=%d" % (st, rng.choice([0, 0, 1, 2, 5]), rng.choice([2, 3]))
+        if st in ("Map", "FMap", "StdErrMap") and rng.random() < 0.5:
+            # failing elements under Lift / Try: the uncancelled result then skips / stops at them
+            cfg += " mode=%s fail=%s" % (rng.choice(["lift", "try"]), ",".join(str(x) for x in xs if rng.random() < 0.3))
         if st == "Take":
             cfg += " n=%d" % rng.randrange(0, n + 2)
         sends = [["s%d" % x for x in xs] + ["c0"]]
@@ -90,7 +93,19 @@ def evaluate(script, tr):
     else:
         xs = tr.sent.get(0, [])
         base = "Map" if st == "StdErrMap" else st
-        want = C05.spec(dict(cfg, stage=base), xs)
+        mode = cfg.get("mode", "pure")
+        fail = set(int(x) for x in cfg.get("fail", "").split(",") if x) if mode != "pure" else set()
+        good = xs
+        if mode == "try":
+            good = [x for x in xs if x not in fail]
+        elif mode == "lift":
+            first = next((i for i, x in enumerate(xs) if x in fail), None)
+            good = xs if first is None else xs[:first]
+        want = C05.spec(dict(cfg, stage=base), good)
+        if base in ("Map", "FMap") and st != "StdErrMap":
+            errs = [x for x in xs if x in fail] if mode == "try" else ([x for x in xs if x in fail][:1] if mode == "lift" else [])
+            if not is_prefix(tr.errors(1), errs):
+                vs.append(vlib.Violation("impl", "%s/%s: errors %s delivered, not a prefix of the uncancelled errors %s" % (st, mode, tr.errors(1), errs), case=script, key=dict(key, mode=mode)))
         for k in outs_of(cfg):
             got = tr.values(k)
             if not is_prefix(got, want[k]):
